@@ -74,7 +74,7 @@ Theorem C17_lfq_never_waits :
 Proof. exact (@Urcu.Progress.ProgressLf.lfq_never_waits). Qed.
 Print Assumptions C17_lfq_never_waits.
 
-(* no step of the hash-table add / del / lookup programs is a waiting step *)
+(* no step of the hash-table add / del / lookup / replace programs is a waiting step *)
 Theorem C17_lfht_never_waits :
     forall s : hst, is_waitD (hact s) = false.
 Proof. exact (@Urcu.Progress.ProgressLf.lfht_never_waits). Qed.
